@@ -137,7 +137,7 @@ class ExtractOperationsPlugin(Plugin):
                 targets=[self._operations_variables[name]],
                 value=[
                     generate_constant(l + "\n")
-                    for l in gql.splitlines()  # noqa: E741
+                    for l in gql.split("\n")  # noqa: E741
                 ],
             )
             for name, gql in self._operations_gqls.items()
